@@ -61,7 +61,7 @@ func checkC08(c CaseC08, x *hx.Ctx) *hx.Failure {
 		x.Label(l)
 	}
 	x.LabelIf(c.Pointer > 0, "pointer>0")
-	in := c08Input(c, sec)
+	in, spareIntact := withSpare(c08Input(c, sec))
 	keep := clone(in)
 	s, err := scte35.NewSCTE35(in)
 	if err != nil {
@@ -75,6 +75,10 @@ func checkC08(c CaseC08, x *hx.Ctx) *hx.Failure {
 	}
 	if !bytes.Equal(s.Data(), sec) {
 		return hx.Failf("data-accessor", "Data() of the decoded signal is not the section that was decoded")
+	}
+	_ = s.String()
+	if !bytes.Equal(keep, in) || !spareIntact() {
+		return hx.Failf("decode-mutates", "decoding / printing the signal modified the caller's buffer or the spare capacity behind it")
 	}
 	return nil
 }
